@@ -281,6 +281,13 @@ def run(res):
             seq = run_trial(obs, jobs, "seq", moddir, False)
             return conc, seq
         fu_trials = [gen_firstuse(rng, quick) for _ in range(8 if quick else 60)]
+        # evaluations with different configurations (dotted denies / overrides on the default modules): lib/c09config.py
+        from lib import c09config
+        cf_trials = [c09config.gen_trial(rng) for _ in range(40 if quick else 600)]
+
+        def one_cf(jobs):
+            w = c09config.wire(jobs)
+            return run_trial(obs, w, "conc", moddir, False), run_trial(obs, w, "seq", moddir, False)
 
         def one_fu(fu):
             conc = run_req(obs, dict(fu, mode="firstuse-conc", dir=moddir), "firstuse")
@@ -289,6 +296,7 @@ def run(res):
         with ThreadPoolExecutor(max_workers=6) as ex:
             outs = list(ex.map(one, trials))
             fu_outs = list(ex.map(one_fu, fu_trials))
+            cf_outs = list(ex.map(one_cf, cf_trials))
         C.log("C09: %d concurrent trials and %d first-use trials done" % (len(trials), len(fu_trials)))
         site_by_pos = {}
         for k, s in enumerate(sites):
@@ -441,6 +449,49 @@ def run(res):
         stats["first_use"] = fstats
         if len(samples) < 6 and fu_trials:
             samples.append({"stage": "dynamic-firstuse", "firstuse": fu_trials[0], "routes": fstats["routes"]})
+        # ---- evaluations with different configurations: each must see exactly its own (expectation from its own options)
+        cstats = {"trials": len(cf_trials), "evaluations": 0, "sandboxed_evaluations": 0, "as_configured_concurrently": 0,
+                  "as_configured_in_sequence": 0, "race_reports": 0}
+        for jobs, ((rc, cres, cerr), (src, sres, serr)) in zip(cf_trials, cf_outs):
+            case = {"stage": "dynamic-config", "jobs": c09config.wire(jobs),
+                    "configurations": [c09config.describe(j["config"]) for j in jobs], "script": jobs[0]["src"],
+                    "expected": [j["_want"] for j in jobs]}
+            evals += 2 * len(jobs)
+            stats["evaluations"] += 2 * len(jobs)
+            cstats["evaluations"] += 2 * len(jobs)
+            cstats["sandboxed_evaluations"] += sum(1 for j in jobs if j["config"])
+            for j in jobs:
+                for o in j["config"]:
+                    nontrivial.add(("config", o["k"], o.get("name") or ",".join(o.get("names") or [])))
+            reports = parse_races(cerr, C.REPO)
+            stats["race_reports"] += len(reports)
+            cstats["race_reports"] += len(reports)
+            cbad = False
+            for how, code, rr, err in (("in sequence (same process, this order)", src, sres, serr), ("concurrently", rc, cres, cerr)):
+                if rr is None:
+                    m0 = re.search(r"^(fatal error: |panic: )", err or "", re.M)
+                    txt = err[m0.start():m0.start() + 6000] if m0 else (err or "")[-3000:]
+                    oracle_viol.append(dict(case, why="the process running the differently configured evaluations %s died (exit %s): %s" % (
+                        how, code, (re.search(r"fatal error: [^\n]*", txt) or re.search(r"panic: [^\n]*", txt) or [txt[-200:]])[0]),
+                        report=txt[-1500:]))
+                    cbad = True
+                    break
+                why = c09config.judge(jobs, rr, how)
+                if why:
+                    oracle_viol.append(dict(case, why=why))
+                    cbad = True
+                    break
+                cstats["as_configured_in_sequence" if how.startswith("in seq") else "as_configured_concurrently"] += len(jobs)
+            if not cbad and not reports and rc == 0:
+                stats["clean_trials"] += 1
+            judge_reports(case, "config", reports)
+            if rc not in (0, 66) and cres is not None:
+                oracle_viol.append(dict(case, why="the concurrent run of the differently configured evaluations exited with status %s" % rc,
+                                        report=cerr[-800:]))
+        stats["different_configurations"] = cstats
+        if cf_trials:
+            samples.append({"stage": "dynamic-config", "configurations": [c09config.describe(j["config"]) for j in cf_trials[0]],
+                            "script": cf_trials[0][0]["src"]})
         # the model must agree that every observed racing pair of sites can race
         if pair_queries:
             q = lines[:len(sites)] + ["pair %d %d" % p for p in pair_queries]
@@ -467,7 +518,12 @@ def run(res):
                    "together on Go types made with reflect.StructOf that the process has never seen (record of 8..250 fields, inner struct, "
                    "wrapper, slices / maps / pointers over them), handed over by object.NewProxy / NewGoType / raw pointer / by value / in a "
                    "slice, map or field / wrapped by a host builtin at run time, plus a module nobody has imported and a codec registered "
-                   "just before; results must equal the Go values (reflect) and the sequential twin. Non-trivial = distinct write sites + distinct racing site pairs observed." % (
+                   "just before; results must equal the Go values (reflect) and the sequential twin. Different configurations: trials of 2..16 evaluations, "
+                   "each with its own option list (WithoutGlobal / WithoutGlobals with dotted names, WithGlobalOverride with dotted names to constants "
+                   "and host builtins, top-level denies, extra globals, in seeded order) over a small pool of attributes of the default modules, "
+                   "through risor.Eval, through a host-edited DefaultGlobals() map and through NewConfig + compiler + vm.Run; every script probes "
+                   "every attribute in play; run concurrently (-race) and in sequence in one new process; each evaluation must see exactly "
+                   "what its OWN options make of the defaults. Non-trivial = distinct write sites + distinct racing site pairs observed." % (
                        facts["packages"], facts["functions"], facts["package_vars_never_written_after_init"], len(facts["locations"]),
                        len(sites), len(facts["locks"]), GUARDED, PROXY))
     cov["samples"] = samples + [{"site": s} for s in sites[:3]]
@@ -492,7 +548,7 @@ def run(res):
         res.known_finding("%d observations in the open class %s, e.g. %s" % (len(known_hits), KNOWN_ID, known_hits[0]["why"][:200]))
     dyn_viol = [v for v in oracle_viol if not v.get("static")]
     # an evaluation that returned something else than alone says more than the race reports of the same rounds: list those first
-    dyn_viol.sort(key=lambda v: 0 if v.get("stage") == "dynamic-firstuse" and v.get("script") else 1)
+    dyn_viol.sort(key=lambda v: 0 if v.get("stage") in ("dynamic-firstuse", "dynamic-config") and v.get("script") and "data race" not in v.get("why", "") else 1)
     for v in dyn_viol[:10]:
         v.update({"property": PROP, "kind": "oracle-violation"})
         res.violation(v)
@@ -515,6 +571,23 @@ def replay(data):
     print(json.dumps({k: v for k, v in data.items() if k != "report"}, indent=1)[:4000])
     if not data.get("jobs") and not data.get("firstuse"):
         return 0
+    if data.get("stage") == "dynamic-config":
+        obs, err = C.go_build("c09obs", race=True)
+        if not obs:
+            print(err)
+            return 2
+        differs = 0
+        for mode in ("seq", "conc", "conc", "conc"):
+            rc, resu, err = run_trial(obs, data["jobs"], mode, tempfile.gettempdir(), False)
+            print("mode %s: exit %s, %d race reports" % (mode, rc, err.count("WARNING: DATA RACE")))
+            differs += 1 if rc != 0 or resu is None else 0
+            for k, r in enumerate(resu or []):
+                want = (data.get("expected") or [])[k] if k < len(data.get("expected") or []) else None
+                ok = want is None or (r.get("value") == want and not r.get("error"))
+                differs += 0 if ok else 1
+                print("  evaluation %d [%s]: %s %s%s" % (k, data["configurations"][k], r.get("value"), r.get("error") or "",
+                                                       "" if ok else "   <-- its own configuration makes it %r" % (want,)))
+        return 1 if differs else 0
     obs, err = C.go_build("c09obs", race=True)
     if not obs:
         print(err)
